@@ -16,6 +16,20 @@ class Case:
         self.line, self.kind, self.tag, self.check, self.nontrivial = line, kind, tag, check, nontrivial
 
 
+_HEX16 = re.compile(r'^[0-9a-f]{16}$')
+
+
+def canon(line):
+    """canonical form of an output line for comparison: every NaN bit pattern is the same value"""
+    if 'f' not in line and '7' not in line: return line
+    toks = line.split(' ')
+    for i, t in enumerate(toks):
+        if _HEX16.match(t):
+            u = int(t, 16)
+            if (u & 0x7ff0000000000000) == 0x7ff0000000000000 and (u & 0xfffffffffffff): toks[i] = 'nan'
+    return ' '.join(toks)
+
+
 def all_zero(vals, line):
     if vals is None: return 'error result'
     bad = [i for i, v in enumerate(vals) if v != 0]
@@ -131,7 +145,7 @@ def decide(spec, group, tier, seed, replay=None):
             for i, c in enumerate(cases):
                 impl_out[i] = iout[i] if i < len(iout) else 'err no-output'
                 if c.kind == 'cmp':
-                    if ok and impl_out[i] != model_out[i]:
+                    if ok and canon(impl_out[i]) != canon(model_out[i]):
                         k = known_match(known, pid, c.line)
                         if k: known_hits.append((k, c.line))
                         else: corr_breaks.append(i)
